@@ -72,6 +72,8 @@ def snapshot(model) -> dict:
             continue
         ins, outs, attrs = {}, {}, {}
         for key, p in getattr(mod, 'ParameterDict', {}).items():
+            if not hasattr(p, 'Provided'):  # the repo registers a bare unit enum under some keys; not a parameter
+                continue
             ins[key] = {
                 'value': plain(p.value), 'Provided': bool(p.Provided), 'Valid': bool(p.Valid),
                 'CurrentUnits': unit_str(getattr(p, 'CurrentUnits', None)),
@@ -79,6 +81,8 @@ def snapshot(model) -> dict:
                 'kind': type(p).__name__,
             }
         for key, p in getattr(mod, 'OutputParameterDict', {}).items():
+            if not hasattr(p, 'value') or isinstance(p, Enum):
+                continue
             outs[key] = {
                 'value': plain(p.value), 'CurrentUnits': unit_str(getattr(p, 'CurrentUnits', None)),
                 'PreferredUnits': unit_str(getattr(p, 'PreferredUnits', None)),
@@ -89,7 +93,7 @@ def snapshot(model) -> dict:
 
         byattr = {}
         for a, v in vars(mod).items():
-            if hasattr(v, 'value') and hasattr(v, 'Name'):
+            if hasattr(v, 'value') and hasattr(v, 'Name') and not isinstance(v, Enum):
                 byattr[a] = {
                     'Name': v.Name, 'value': plain(v.value), 'Provided': bool(getattr(v, 'Provided', False)),
                     'Valid': bool(getattr(v, 'Valid', False)), 'CurrentUnits': unit_str(getattr(v, 'CurrentUnits', None)),
@@ -324,3 +328,31 @@ def grid():
             for pl in plants:
                 out.append((econ, eu, pl))
     return out
+
+
+# ----------------------------------------------------------------------------------------------------------------
+# example inputs that run offline (Beckers/CLGS need an emptied HDF5 file, example6/7 an external TOUGH2 binary)
+# ----------------------------------------------------------------------------------------------------------------
+NOT_RUNNABLE = ('Beckers_', 'example6.txt', 'example7.txt', 'MC_')
+SLOW = ('example_SBT_',)
+
+
+def example_files(include_slow: bool = False) -> list[Path]:
+    out = []
+    for f in sorted(EXAMPLES.glob('*.txt')):
+        if any(f.name.startswith(x) or f.name == x for x in NOT_RUNNABLE):
+            continue
+        if not include_slow and any(f.name.startswith(x) for x in SLOW):
+            continue
+        out.append(f)
+    return out
+
+
+def example_text(path: Path) -> str:
+    """example text with file references made absolute (examples refer to `Examples/…` relative to the package dir)"""
+    txt = path.read_text(encoding='utf-8', errors='replace')
+    return txt
+
+
+def enum_name(v):
+    return v.get('name') if isinstance(v, dict) else v
